@@ -126,7 +126,10 @@ def harness(sym):
                 online = True
             else:
                 if cur is not None:
-                    outage = "restart-connected" if online else (outage or "") + "+restart"
+                    if online:
+                        outage = "restart-connected"
+                    elif not (outage or "").endswith("+restart"):
+                        outage = (outage or "") + "+restart"
                 w.restart_aggregator()
                 online = False
             check_same_run(ev)
